@@ -84,3 +84,10 @@ PROPS["C02"] = {
     "rule": "seeded ASTs (a third biased to long constant intervals) x holiday contexts x windows: short (<= 10 days, arbitrary start second), medium (<= 3 years), long (<= 60 years; thorough up to 8100 years), straddling 1900 / 9999, empty, inverted, open-ended (capped). Oracle: schedule_at of the same value (C01 ties it to the semantics). Non-trivial = stream with >= 2 intervals or a skip of >= 2 days; distinct by hash of (AST, context, window).",
     "assumptions": ["schedule_at is the pointwise truth (decided separately by C01)", "hook H2 reports every jump of the day cursor (one call site, reviewed)"],
 }
+
+PROPS["C03"] = {
+    "technique": "self-consistency monitor: state / is_* / next_change vs a pointwise scan of the daily schedules, with same-interval probes; step budgets from hook H1 bound the cost of unbounded calls",
+    "level_text": "At generated instants (sub-minute parts included) state is compared with the schedule of its day, the three predicates with state, and next_change with an exhaustive pointwise scan up to a horizon (3 years quick, 60 years thorough): never earlier, never later, None only when nothing changes; further probes inside the returned interval must give the same answer. Claims beyond the horizon are checked on the days the iterator skipped (hook H2) and on candidate days, and reported as sampled.",
+    "rule": "seeded ASTs x holiday contexts x 3 instants each (days derived from the expression's selectors +-2 or random in 1900..9999; minutes at span bounds +-1; seconds/nanoseconds in a third). Non-trivial = instant with a pointwise change within the horizon; distinct by hash of (AST, context, instant).",
+    "assumptions": ["schedule_at is the pointwise truth (decided separately by C01)", "beyond the horizon the no-change claim is checked on skipped and candidate days only (far_claims_sampled)"],
+}
